@@ -266,6 +266,95 @@ def table_stream(run, rng, n):
     run.stream_info('table-breaks', forced_boundaries=nforced,
                     rule='tables whose rows carry break-before/after values; forced value between two rows => next page, '
                          'requested side')
+    # ---- avoided breaks never lose content: out-of-flow boxes between in-flow siblings, many avoid values
+    import p_c01, fragcheck
+    thorough = run.tier == 'thorough'
+    adocs = [p_c01.avoid_document(rng) for _ in range(1500 if thorough else 300)]
+    outs = common.run_impl('impl_wide', 'render_words', [{'html': h} for h, _, _ in adocs], limit=60)
+    for (html, leaves, H), (st, o) in zip(adocs, outs):
+        if st != 'ok':
+            run.fail('render failed: %s' % (o if st != 'exc' else o['type']), {'stream': 'avoid-conservation', 'html': html},
+                     signature='timeout' if st == 'timeout' else 'crash:%s' % (o.get('site'),))
+            continue
+        for failure, lf in fragcheck.judge_conservation(leaves, o['pages'])[:1]:
+            if failure in ('lost', 'duplicated'):
+                run.fail('an avoided break made content %s: words %s of a %s' % (failure, lf['words'][:3], lf['kind']),
+                         {'stream': 'avoid-conservation', 'html': html, 'leaf': lf, 'pages': o['pages']},
+                         signature=fragcheck.signature_of(failure, lf))
+    run.count('avoid-conservation', len(adocs), [(H, len(l)) for _, l, H in adocs], samples=[adocs[0][0][-300:]])
+    run.stream_info('avoid-conservation', rule='p_c01.avoid_document: floats / absolutes between in-flow siblings, '
+                    'break-before/after/inside: avoid everywhere; every word exactly once')
+    # ---- a change of named page always starts a new page (and only that does, on a tall page)
+    ndocs = [named_page_document(rng) for _ in range(1200 if thorough else 250)]
+    outs = common.run_impl('impl_wide', 'render_words', [{'html': h} for h, _ in ndocs], limit=60)
+    nchanges = 0
+    for (html, leaves), (st, o) in zip(ndocs, outs):
+        if st != 'ok':
+            run.fail('render failed: %s' % (o if st != 'exc' else o['type']), {'stream': 'named-pages', 'html': html},
+                     signature='timeout' if st == 'timeout' else 'crash:%s' % (o.get('site'),))
+            continue
+        nchanges += sum(1 for (_, a), (_, b) in zip(leaves, leaves[1:]) if a != b)
+        found = judge_named_pages(leaves, o['pages'])
+        found.sort(key=lambda cd: cd[0] == 'named-to-unnamed-without-page-break')
+        for clause, detail in found[:1]:
+            run.fail('named pages: %s %s' % (clause, detail), {'stream': 'named-pages', 'html': html, 'leaves': leaves,
+                                                              'clause': clause}, signature='page-name:%s' % clause)
+    run.count('named-pages', len(ndocs), [tuple(n for _, n in l) for _, l in ndocs], samples=[ndocs[0][0][-300:]])
+    run.stream_info('named-pages', name_changes=nchanges,
+                    rule='nested containers with page: a|b|c|auto at every level; used name = nearest named ancestor-or-self; '
+                         'consecutive paragraphs: different names <=> different pages')
+
+
+# ------------------------------------------------------------------------------------------- named pages
+def named_page_document(rng):
+    """nested containers and paragraphs with `page` names; returns (html, [(word, used page name)])"""
+    import fraggen
+    leaves = []
+    n = [0]
+
+    def block(depth, inherited):
+        name = rng.choice(['', '', 'auto', 'a', 'b', 'c'])
+        used = inherited if name in ('', 'auto') else name
+        st = ('page:%s' % name) if name else ''
+        if depth >= 3 or rng.random() < 0.4:
+            w = fraggen.word(n[0]); n[0] += 1
+            leaves.append((w, used))
+            return '<p style="margin:0;%s">%s</p>' % (st, w)
+        kids = ''.join(block(depth + 1, used) for _ in range(rng.choice([1, 2, 3])))
+        tag = rng.choice(['div', 'section', 'article'])
+        if rng.random() < 0.15:
+            return '<table style="%s"><tr><td>%s</td></tr></table>' % (st, kids) if False else '<%s style="%s">%s</%s>' % (tag, st, kids, tag)
+        return '<%s style="%s">%s</%s>' % (tag, st, kids, tag)
+    body = ''.join(block(0, '') for _ in range(rng.choice([2, 3, 5])))
+    html = ('<style>@page{size:200px 400px;margin:0} html{font-family:weasyprint;font-size:10px;line-height:10px}'
+            'body{margin:0}</style>' + body)
+    return html, leaves
+
+
+def judge_named_pages(leaves, pages):
+    """css-page-3: a forced break lies between two boxes whose end / start page values differ, i.e. between two
+    consecutive paragraphs whose used page names differ; nothing else breaks these one-line paragraphs (the page is
+    tall): every page shows paragraphs of one name, and consecutive same-name paragraphs share a page"""
+    where = {}
+    for i, p in enumerate(pages):
+        for w in p:
+            where.setdefault(w, []).append(i)
+    bad = []
+    for w, _ in leaves:
+        if len(where.get(w, [])) != 1:
+            bad.append(('paragraph-not-once', w))
+    if bad:
+        return bad
+    for (w1, n1), (w2, n2) in zip(leaves, leaves[1:]):
+        p1, p2 = where[w1][0], where[w2][0]
+        if n1 != n2 and p1 == p2:
+            # going back to the unnamed page does not break in WeasyPrint (pinned by tests/layout/test_page.py::
+            # test_page_names_4): listed finding, own clause
+            bad.append(('named-to-unnamed-without-page-break' if n2 == '' else 'name-change-without-page-break',
+                        (w1, n1, w2, n2)))
+        if n1 == n2 and p1 != p2:
+            bad.append(('page-break-without-name-change', (w1, w2, n1)))
+    return bad
 
 
 def replay(data):
@@ -273,6 +362,17 @@ def replay(data):
     if d.get('stream') == 'table-breaks':
         (st, o), = common.run_impl('impl_wide', 'render_words', [{'html': d['html']}])
         bad = judge_table([tuple(r) for r in d['rows']], o['pages']) if st == 'ok' else [(st,)]
+        print(bad)
+        return 1 if bad else 0
+    if d.get('stream') == 'named-pages':
+        (st, o), = common.run_impl('impl_wide', 'render_words', [{'html': d['html']}])
+        bad = judge_named_pages([tuple(x) for x in d['leaves']], o['pages']) if st == 'ok' else [(st,)]
+        print(bad)
+        return 1 if bad else 0
+    if d.get('stream') == 'avoid-conservation':
+        import fragcheck
+        (st, o), = common.run_impl('impl_wide', 'render_words', [{'html': d['html']}])
+        bad = [b for b in fragcheck.judge_conservation([d['leaf']], o['pages']) if b[0] != 'unknown-word'] if st == 'ok' else [(st,)]
         print(bad)
         return 1 if bad else 0
     if d.get('stream') == 'fold-direct':
